@@ -578,3 +578,198 @@ contract(C + 'Writer.add_var_bytes',
          prop=PROP,
          doc='appends the length_length-byte big-endian len(data) followed by data verbatim; ValueError iff len(data) '
              'does not fit the length field (never truncates); buffer unchanged on error')
+
+
+contract(C + 'Writer.__init__',
+         variants={'any': {'self': T.obj(codec.Writer)}},          # never applied: callers inline it
+         result=T.none(), ensures=lambda ns: S.len_(wbytes(ns)) == 0, raises={}, prop=PROP,
+         doc='a new Writer holds the empty buffer')
+
+
+# ===========================================================================
+# Pair lemmas (scenarios): decoding what was encoded gives the value back and consumes exactly the
+# bytes that were written.  They compose the contracts above (each proved against the real body); the
+# Writer starts from an arbitrary buffer b0 and the Parser is positioned at len(b0), which covers
+# `Parser(Writer().bytes)` (b0 empty) and every position inside a larger message.
+# ===========================================================================
+
+def _writer(api, name='w'):
+    w = api.make(name, WRITER)
+    return w, api.ns(api.st).f(w, 'bytes')
+
+
+def _parser_at(api, st, buf, index):
+    """Parser(buf) through the real constructor, then positioned at `index`"""
+    outs = api.ex.instantiate(codec.Parser, [buf], {}, st, api.fr, None)
+    assert len(outs) == 1 and outs[0].kind == 'normal'
+    p = outs[0].val
+    st.heap[(p.oid, 'index')] = _lift(index)
+    return p, outs[0].st
+
+
+def _normal(api, outs, label, allow=()):
+    """yield the normal outcomes; every other outcome must be unreachable (unless its class is allowed)"""
+    for o in outs:
+        if o.kind == 'normal':
+            yield o
+        elif o.kind == 'raise' and any(issubclass(o.val.cls, a) for a in allow):
+            continue
+        else:
+            api.unreachable(o.st, '%s-does-not-raise(%s %s)' % (label, getattr(o.val.cls, '__name__', '?'), o.val.origin))
+
+
+def _must_raise(api, outs, label, cls):
+    """every outcome is a raise of cls"""
+    for o in outs:
+        if o.kind == 'raise' and issubclass(o.val.cls, cls):
+            api.oblige(o.st, '%s-raises-%s' % (label, cls.__name__), True)
+        else:
+            api.unreachable(o.st, '%s-must-raise-%s(but: %s)' % (label, cls.__name__, o.kind))
+
+
+@scenario('pair-add-get', PROP,
+          doc='Parser.get(n) after Writer.add(x, n) returns x and consumes exactly the n bytes written (any n >= 0, any x that fits)')
+def pair_add_get(api):
+    w, b0 = _writer(api)
+    x, n = api.make('x', T.int()), api.make('n', T.int(0, None))
+    for o in _normal(api, api.call(C + 'Writer.add', [w, x, n], api.st, inline=False), 'add', allow=(ValueError,)):
+        buf = api.ns(o.st).f(w, 'bytes')
+        p, st = _parser_at(api, o.st, buf, S.len_(b0))
+        for o2 in _normal(api, api.call(C + 'Parser.get', [p, n], st, inline=False), 'get'):
+            ns = api.ns(o2.st)
+            api.oblige(o2.st, 'value-back', o2.val == x)
+            api.oblige(o2.st, 'consumed-exactly', S.And(ns.f(p, 'index') == S.len_(b0) + n, ns.f(p, 'index') == S.len_(buf)))
+
+
+@scenario('pair-add_var_bytes-getVarBytes', PROP,
+          doc='Parser.getVarBytes(ll) after Writer.add_var_bytes(data, ll) returns data and consumes exactly what was written')
+def pair_varbytes(api):
+    w, b0 = _writer(api)
+    data, ll = api.make('data', T.bytes()), api.make('ll', T.int(0, None))
+    for o in _normal(api, api.call(C + 'Writer.add_var_bytes', [w, data, ll], api.st, inline=False), 'write', allow=(ValueError,)):
+        buf = api.ns(o.st).f(w, 'bytes')
+        p, st = _parser_at(api, o.st, buf, S.len_(b0))
+        for o2 in _normal(api, api.call(C + 'Parser.getVarBytes', [p, ll], st, inline=False), 'parse'):
+            ns = api.ns(o2.st)
+            api.oblige(o2.st, 'bytes-back', S.seq_eq(o2.val, data))
+            api.oblige(o2.st, 'consumed-exactly', ns.f(p, 'index') == S.len_(buf))
+
+
+@scenario('pair-addFixSeq-getFixList', PROP,
+          doc='Parser.getFixList(n, len(seq)) after Writer.addFixSeq(seq, n) returns seq and consumes exactly what was written')
+def pair_fixseq(api):
+    w, b0 = _writer(api)
+    seq, n = api.make('seq', T.ints()), api.make('n', T.int(0, None))
+    for o in _normal(api, api.call(C + 'Writer.addFixSeq', [w, seq, n], api.st, inline=False), 'write', allow=(ValueError,)):
+        buf = api.ns(o.st).f(w, 'bytes')
+        p, st = _parser_at(api, o.st, buf, S.len_(b0))
+        for o2 in _normal(api, api.call(C + 'Parser.getFixList', [p, n, S.len_(seq)], st, inline=False), 'parse'):
+            ns = api.ns(o2.st)
+            api.oblige(o2.st, 'list-back', S.And(S.len_(o2.val) == S.len_(seq),
+                                                 S.forall(lambda k: at(o2.val, k) == at(seq, k), 0, S.len_(seq))))
+            api.oblige(o2.st, 'consumed-exactly', ns.f(p, 'index') == S.len_(buf))
+
+
+@scenario('pair-addVarSeq-getVarList', PROP,
+          doc='Parser.getVarList(n, ll) after Writer.addVarSeq(seq, n, ll) returns seq and consumes exactly what was written (n >= 1)')
+def pair_varseq(api):
+    w, b0 = _writer(api)
+    seq, n, ll = api.make('seq', T.ints()), api.make('n', T.int(1, None)), api.make('ll', T.int(0, None))
+    for o in _normal(api, api.call(C + 'Writer.addVarSeq', [w, seq, n, ll], api.st, inline=False), 'write', allow=(ValueError,)):
+        buf = api.ns(o.st).f(w, 'bytes')
+        p, st = _parser_at(api, o.st, buf, S.len_(b0))
+        for o2 in _normal(api, api.call(C + 'Parser.getVarList', [p, n, ll], st, inline=False), 'parse'):
+            ns = api.ns(o2.st)
+            api.oblige(o2.st, 'list-back', S.And(S.len_(o2.val) == S.len_(seq),
+                                                 S.forall(lambda k: at(o2.val, k) == at(seq, k), 0, S.len_(seq))))
+            api.oblige(o2.st, 'consumed-exactly', ns.f(p, 'index') == S.len_(buf))
+
+
+@scenario('pair-addVarTupleSeq-getVarTupleList', PROP,
+          doc='Parser.getVarTupleList(n, 2, ll) after Writer.addVarTupleSeq(pairs, n, ll) returns the pairs and consumes exactly what was written (n >= 1)')
+def pair_vartuples(api):
+    w, b0 = _writer(api)
+    seq, n, ll = api.make('seq', T.tuples(2)), api.make('n', T.int(1, None)), api.make('ll', T.int(0, None))
+    for o in _normal(api, api.call(C + 'Writer.addVarTupleSeq', [w, seq, n, ll], api.st, inline=False), 'write', allow=(ValueError,)):
+        buf = api.ns(o.st).f(w, 'bytes')
+        p, st = _parser_at(api, o.st, buf, S.len_(b0))
+        for o2 in _normal(api, api.call(C + 'Parser.getVarTupleList', [p, n, _lift(2), ll], st, inline=False), 'parse'):
+            ns = api.ns(o2.st)
+            api.oblige(o2.st, 'tuples-back', S.And(S.len_(o2.val) == S.len_(seq),
+                                                   S.forall(lambda k: S.And(at(o2.val, k)[0] == at(seq, k)[0],
+                                                                            at(o2.val, k)[1] == at(seq, k)[1]), 0, S.len_(seq))))
+            api.oblige(o2.st, 'consumed-exactly', ns.f(p, 'index') == S.len_(buf))
+
+
+# --- framing is enforced: truncation and trailing bytes are decode errors ---------------------------------
+def _prefix(buf, cut):
+    return VSeq(smt.s_slice(buf.t, z3.IntVal(0), cut.t), 'byte', 'bytearray')
+
+
+@scenario('truncated-var-bytes-rejected', PROP,
+          doc='every strict prefix of the encoding written by add_var_bytes makes getVarBytes raise DecodeError (never a short read)')
+def trunc_varbytes(api):
+    w, b0 = _writer(api)
+    data, ll = api.make('data', T.bytes()), api.make('ll', T.int(0, None))
+    cut = api.make('cut', T.int())
+    for o in _normal(api, api.call(C + 'Writer.add_var_bytes', [w, data, ll], api.st, inline=False), 'write', allow=(ValueError,)):
+        buf = api.ns(o.st).f(w, 'bytes')
+        o.st.assume(((cut >= S.len_(b0)) & (cut < S.len_(buf))).t)
+        short_buf = _prefix(buf, cut)
+        p, st = _parser_at(api, o.st, short_buf, S.len_(b0))
+        _must_raise(api, api.call(C + 'Parser.getVarBytes', [p, ll], st, inline=False), 'parse-truncated', DecodeError)
+
+
+@scenario('truncated-var-list-rejected', PROP,
+          doc='every strict prefix of the encoding written by addVarSeq makes getVarList raise DecodeError')
+def trunc_varlist(api):
+    w, b0 = _writer(api)
+    seq, n, ll = api.make('seq', T.ints()), api.make('n', T.int(1, None)), api.make('ll', T.int(0, None))
+    cut = api.make('cut', T.int())
+    for o in _normal(api, api.call(C + 'Writer.addVarSeq', [w, seq, n, ll], api.st, inline=False), 'write', allow=(ValueError,)):
+        buf = api.ns(o.st).f(w, 'bytes')
+        o.st.assume(((cut >= S.len_(b0)) & (cut < S.len_(buf))).t)
+        short_buf = _prefix(buf, cut)
+        p, st = _parser_at(api, o.st, short_buf, S.len_(b0))
+        _must_raise(api, api.call(C + 'Parser.getVarList', [p, n, ll], st, inline=False), 'parse-truncated', DecodeError)
+
+
+@scenario('declared-length-must-match', PROP,
+          doc='setLengthCheck(m); getVarBytes(ll); stopLengthCheck() succeeds iff m == ll + len(body): trailing bytes inside '
+              'a length-delimited structure, or an inner length overrunning the outer one, are DecodeErrors')
+def length_check_exact(api):
+    p = api.make('p', PARSER)
+    m, ll = api.make('m', T.int()), api.make('ll', T.int(0, None))
+    ns0 = api.ns(api.st)
+    api.st.assume(p_inv_of(ns0, p).t)
+    i0 = ns0.f(p, 'index')
+    for o in _normal(api, api.call(C + 'Parser.setLengthCheck', [p, m], api.st, inline=False), 'set'):
+        for o2 in _normal(api, api.call(C + 'Parser.getVarBytes', [p, ll], o.st, inline=False), 'body', allow=(DecodeError,)):
+            body = o2.val
+            for o3 in api.call(C + 'Parser.stopLengthCheck', [p], o2.st, inline=False):
+                exact = (m == ll + S.len_(body))
+                if o3.kind == 'normal':
+                    api.oblige(o3.st, 'accepted-only-if-exact', exact)
+                else:
+                    api.oblige(o3.st, 'rejected-only-if-mismatch', S.Not(exact))
+                    api.oblige(o3.st, 'rejection-is-DecodeError', issubclass(o3.val.cls, DecodeError))
+
+
+def p_inv_of(ns, p):
+    return S.And(ns.f(p, 'index') >= 0, ns.f(p, 'index') <= S.len_(ns.f(p, 'bytes')))
+
+
+for _p in PROP:
+    REG.xchecks.append({'prop': _p, 'module': 'specs.codec', 'name': 'writer_primitives', 'function': C + 'Writer.add'})
+    REG.xchecks.append({'prop': _p, 'module': 'specs.codec', 'name': 'parser_primitives', 'function': C + 'Parser.get'})
+    REG.xchecks.append({'prop': _p, 'module': 'specs.codec', 'name': 'codec_roundtrip', 'function': C + 'Parser.getVarList'})
+
+REG.note('C15', 'assumptions', 'Parser methods: requires 0 <= index <= len(bytes) (established by Parser.__init__, preserved by every '
+         'method: proved) and non-negative length arguments, element size >= 1 for getVarList/getVarTupleList (all call sites pass '
+         'positive literals or values returned by get())')
+REG.note('C15', 'assumptions', 'Writer sequence methods: requires length >= 0 and lengthLength >= 0; elements are Python ints '
+         '(a non-int element raises TypeError/struct.error-as-ValueError outside the model)')
+REG.note('C08', 'assumptions', 'Parser contracts: the only exception that can leave any Parser method is DecodeError (a SyntaxError subclass), '
+         'under the same preconditions as for C15')
+REG.note('C15', 'trusted', 'frame conditions ("only self.bytes / self.index changes") are checked on the executor heap: every other field of a '
+         'pre-existing object holds the same term or a provably equal value')
